@@ -99,6 +99,9 @@ pub fn tiny(driver: &str) -> Scenario {
 }
 
 use crate::sup::RunSpec;
+
+/// set by main when the opt-level-1 binary and its list of atomic instructions are available
+pub static ATOMIC_AVAILABLE: std::sync::atomic::AtomicBool = std::sync::atomic::AtomicBool::new(false);
 use std::sync::Arc;
 pub type Jobs = Vec<(Arc<Scenario>, RunSpec, usize)>;
 
@@ -149,6 +152,21 @@ pub fn schedule_jobs_level(level: u8, tf: &dyn Fn(Scenario) -> Scenario) -> Vec<
         s.name.push_str("-vv");
         s
     };
+    // (c) atomic grain: xcp built at opt-level 1 stops before every atomic read-modify-write instruction of its own
+    //     code (Arc counts, the updater's counter, mutexes), so windows without any system call can be pre-empted
+    if ATOMIC_AVAILABLE.load(std::sync::atomic::Ordering::Relaxed) {
+        let at = |mut s: Scenario| {
+            s.prog = crate::scen::Prog::XcpAtomic;
+            s.name.push_str("-atomic");
+            s
+        };
+        if quick {
+            add("tiny both drivers at atomic grain", vec![at(tiny("parblock")), at(tiny("parfile"))], 1);
+        } else {
+            add("tiny both drivers at atomic grain", vec![at(tiny("parblock")), at(tiny("parfile"))], 2);
+            add("S2 parblock B=4 w2, S1 parfile w2 at atomic grain", vec![at(s2(2, 4)), at(s1(2))], 1);
+        }
+    }
     if quick {
         add("S2 parblock B=4 w2, -vv (log statements as pre-emption points)", vec![vv(s2(2, 4))], 1);
         add("S1 parfile w2, -vv", vec![vv(s1(2))], 1);
